@@ -61,9 +61,12 @@ REQUIRED_FORMATS = [
     "GPOS:1.1", "GPOS:1.2", "GPOS:2.1", "GPOS:2.2", "GPOS:3.1", "GPOS:4.1", "GPOS:5.1", "GPOS:6.1", "GPOS:7.1",
     "GPOS:7.2", "GPOS:7.3", "GPOS:8.1", "GPOS:8.2", "GPOS:8.3", "GPOS:9.1(extension->1.1)",
     "sfnt:scaler-00010000", "sfnt:scaler-4f54544f", "maxp:0.5", "maxp:1.0",
-]
+    "cff:t2-num-2byte", "cff:t2-num-shortint", "cff:t2-num-fixed",
+] + ["cff:t2-op-%d" % n for n in (1, 3, 4, 5, 6, 7, 8, 10, 11, 14, 18, 19, 20, 21, 22, 23, 24, 25, 26, 27, 29, 30, 31)] \
+  + ["cff:t2-op-12.%d" % n for n in (0, 3, 4, 5, 9, 10, 11, 12, 14, 15, 18, 20, 21, 22, 23, 24, 26, 27, 28, 29, 30,
+                                     34, 35, 36, 37)]
 
-PROVED = {"cmap", "cmap4", "cmap4seg", "cmap12", "index", "loca", "cover", "classdef"}
+PROVED = {"cmap", "cmap4", "cmap4seg", "cmap12", "index", "loca", "cover", "classdef", "t2store", "t2stack", "sum"}
 NOT_REPLAYED = {"cmap4seg", "cmap12", "cover"}
 
 
@@ -76,7 +79,8 @@ def _budget_kib():
 
 
 def _seeds_module(seeds):
-    recs = [{"id": s["id"], "dec": s["dec"], "len": s["len"], "mlen": s["mlen"], "ntab": s["ntab"]} for s in seeds]
+    recs = [{"id": s["id"], "dec": s["dec"], "len": s["len"], "mlen": s["mlen"], "ntab": s["ntab"],
+             "ngid": s.get("ngid", 0)} for s in seeds]
     return ("---------------------------- MODULE C02Seeds ----------------------------\n"
             "\\* generated by checks/C02.py from the seed list of `c02 seeds`\n"
             "SeedsVal == " + vlib.tla_value(recs) + "\n"
@@ -157,30 +161,13 @@ def _report(ctx, ev, why, seed_name, data, origin):
     return n
 
 
-def _mutant_bytes(seeds_by_id, sdir, ev):
-    s = seeds_by_id[ev["seed"]]
-    d = bytearray(open(os.path.join(sdir, "%d.bin" % s["id"]), "rb").read())
-    k, idx = ev["kind"], ev["idx"]
-    if k == "trunc":
-        return bytes(d[:idx])
-    if k == "word":
-        n = len(d)
-        v = [0, 1, 2, 0x7FFF, 0x8000, 0xFFFE, 0xFFFF, (n - 1) & 0xFFFF, n & 0xFFFF, (n + 1) & 0xFFFF][ev["v"] - 1]
-        d[2 * idx] = v >> 8
-        d[2 * idx + 1] = v & 255
-    elif k == "flip":
-        d[idx] ^= 0x80
-    elif k == "ff":
-        d[idx] = 0xFF
-    elif k == "inc":
-        d[idx] = (d[idx] + 1) & 255
-    elif k == "dec":
-        d[idx] = (d[idx] - 1) & 255
-    elif k == "drop":
-        n = (d[4] << 8) | d[5]
-        d[12 + 16 * idx:12 + 16 * n] = d[12 + 16 * (idx + 1):12 + 16 * n] + bytes(16)
-        d[4], d[5] = (n - 1) >> 8, (n - 1) & 255
-    return bytes(d)
+def _mutant_bytes(ctx, binp, env, sdir, ev):
+    """The bytes of a planned mutant, produced by the harness itself (c02 bytes)."""
+    d = ctx.subdir("bytes")
+    lp = os.path.join(d, "m.ndjson")
+    vlib.write_ndjson(lp, [{"seed": ev["seed"], "kind": ev["kind"], "v": ev["v"], "idx": ev["idx"]}])
+    ctx.run([binp, "bytes", sdir, lp, d], env=env, timeout=120)
+    return open(os.path.join(d, "0.bin"), "rb").read()
 
 
 def run(ctx):
@@ -363,7 +350,7 @@ def run(ctx):
     if uniq:
         bad = _isolate(ctx, binp, env, sdir, seeds_mod, uniq, "DecoderTrace: representatives alone")
         for ev2, why2 in bad:
-            data = _mutant_bytes(by_id, sdir, ev2)
+            data = _mutant_bytes(ctx, binp, env, sdir, ev2)
             _report(ctx, ev2, why2, "%s %s v=%d idx=%d" % (by_id[ev2["seed"]]["name"], ev2["kind"], ev2["v"], ev2["idx"]),
                     data, "fault plan")
         redone = set()
@@ -394,7 +381,7 @@ def _replay_many(ctx, binp, env, items):
         if len(data) == 0:
             raise vlib.Infra("cannot replay an empty input")
         open(os.path.join(d, "%d.bin" % k), "wb").write(data)
-        seeds.append({"id": k, "name": "replay", "dec": dec, "len": len(data), "mlen": len(data), "ntab": 0})
+        seeds.append({"id": k, "name": "replay", "dec": dec, "len": len(data), "mlen": len(data), "ntab": 0, "ngid": 0})
     vlib.write_ndjson(os.path.join(d, "seeds.ndjson"), seeds)
     # SeedsOK of the trace spec is only required in plan mode; any seed list is fine for replay mode
     bad = _isolate(ctx, binp, env, d, _seeds_module(seeds),
